@@ -1,9 +1,72 @@
-(* C15 — placeholder until the registry theorems land (replaced below). *)
+(* C15 — Subclass registries are independent; failing user constructors leave no trace.
+   (The reader-slot part of C15 is stated elsewhere.)
+   Only property theorems: each is closed by `exact` and followed by Print Assumptions. *)
 From Coq Require Import List NArith ZArith.
 From DSD Require Import Base.Str Base.Errors Model.ComplexUtils Model.RegStr Model.Heap Model.Registry
-  Proofs.RegistryBasic.
+  Proofs.RegHeap Proofs.RegInv Proofs.RegCalls Proofs.RegExt Proofs.RegC04 Proofs.RegStep Proofs.RegC15.
 Import ListNotations.
 
-Theorem C15_init_empty : forall ct n, heap (init ct n) = [] /\ length (classes (init ct n)) = length ct.
-Proof. exact init_shape. Qed.
-Print Assumptions C15_init_empty.
+(* frame: an operation addressing class a leaves, for every other class b (base class, subclass, sibling),
+   both registries as they were except for entries of objects that died, and b's own ID untouched *)
+Theorem C15_frame : forall ct st o a b,
+  Inv ct st -> Collected st -> op_class st o = Some a -> b <> a -> Framed st (fst (step ct st o)) b.
+Proof. exact frame_step. Qed.
+Print Assumptions C15_frame.
+
+(* during the call itself nothing of another class is touched at all *)
+Theorem C15_frame_call : forall ct c st s b,
+  Inv ct s -> Ext st s -> Only c st s -> b <> c ->
+  cs_names (cget s b) = cs_names (cget st b) /\ cs_canon (cget s b) = cs_canon (cget st b) /\
+  cs_id (cget s b) = cs_id (cget st b).
+Proof. exact frame_of. Qed.
+Print Assumptions C15_frame_call.
+
+(* every object a constructor call creates (temporaries included) belongs to the class called *)
+Theorem C15_objects_belong_to_the_class_called : forall fuel ct c st name len prefix dtype,
+  Only c st (fst (dom_call fuel ct c st name len prefix dtype)).
+Proof. exact only_dom_call. Qed.
+Print Assumptions C15_objects_belong_to_the_class_called.
+
+Theorem C15_complex_objects_belong_to_the_class_called : forall ct c st seq sst name prefix,
+  Only c st (fst (cplx_call ct c st seq sst name prefix)).
+Proof. exact only_cplx_call. Qed.
+Print Assumptions C15_complex_objects_belong_to_the_class_called.
+
+(* registries hold objects of exactly their class *)
+Theorem C15_registry_values_have_the_class : forall ct st, Inv ct st ->
+  forall c, c < length ct -> ClassOK (heap st) c (cget st c).
+Proof. exact (fun ct st I => ok_cls ct st (proj1 I)). Qed.
+Print Assumptions C15_registry_values_have_the_class.
+
+(* a constructor that fails inside a user subclass (before or after super().__init__) never creates,
+   and the refused request leaves no trace: same slots, registries, live objects *)
+Theorem C15_failing_ctor_no_trace : forall ct st o a ci st' out,
+  Inv ct st -> Collected st -> op_class st o = Some a -> nth_error ct a = Some ci -> c_fail ci <> FNone ->
+  step ct st o = (st', out) ->
+  (forall id, out <> Created id) /\ (forall k e, out = Raised k e -> Junk st st').
+Proof. exact failing_ctor_no_trace. Qed.
+Print Assumptions C15_failing_ctor_no_trace.
+
+(* ---- reader slots: every object produced by the reader is an instance of exactly the configured class
+   (in sessions satisfying the session invariant); refuted in mixed sessions (known finding) ---- *)
+From Coq Require Import List NArith ZArith.
+From DSD Require Import Base.Str Base.Errors Model.ComplexUtils Model.ReaderStr Model.Peg Model.Heap Model.Registry
+  Model.Reader Model.ReaderShape Proofs.RegInv Proofs.ReaderBasic Proofs.ReaderStmt Proofs.ReaderHeap Proofs.ReaderInv
+  Proofs.ReaderHoare Proofs.ReaderNoFault Proofs.ReaderThms Proofs.ReaderExamples.
+From DSDGen Require Import ReaderConsts.
+Import ListNotations.
+
+Theorem C15_reader_classes : forall ct cd cs cc cm cr,
+  cfg_okb ct cd cs cc cm cr = true ->
+  forall ig lines r, forallb line_okb lines = true -> RGood ct cd cs cc cm cr r ->
+  let st' := r_st (fst (read_pil ct (g cd cs cc cm cr) ig lines r)) in
+  (forall i o, hget (heap st') i = Some o -> cls_kind_ok cd cs cc cm cr o) /\
+  (forall c n i, c < length ct -> In (n, i) (cs_names (cget st' c)) -> cls_at (heap st') i = Some c) /\
+  (forall c k i, c < length ct -> In (k, i) (cs_canon (cget st' c)) -> cls_at (heap st') i = Some c).
+Proof. exact reader_classes. Qed.
+Print Assumptions C15_reader_classes.
+
+Theorem C15_reader_classes_refuted_in_mixed_sessions : created_outside_slots = [(2, 5, [97; 42]%N)].
+Proof. exact reader_classes_refuted. Qed.
+Print Assumptions C15_reader_classes_refuted_in_mixed_sessions.
+
